@@ -630,7 +630,39 @@ func c17Scenarios(tier string) []*Scenario {
 		}
 	}
 	sc.Check = func(x *Run, o *rt.Outcome) (string, string, string) { return "", "", "ok" }
-	return []*Scenario{sc}
+	// P2: two DIFFERENT names are used for the first time at the same moment (whatever table the reporter keeps its
+	// vectors in must end up with both), then each name is used again from a scope with another tag value: a legal
+	// further series of a family that exists - no registration error, and everything exposed
+	sc2 := &Scenario{Property: "C17", Name: "P2-concurrent-first-use-of-two-families-then-further-series"}
+	sc2.Body = func(x *Run) {
+		reg := prom.NewRegistry()
+		ncb := 0
+		rep := tprom.NewReporter(tprom.Options{Registerer: reg, OnRegisterError: func(e error) { ncb++ }})
+		so := tprom.DefaultSanitizerOpts
+		root, _ := tally.VerifNewRootScope(tally.ScopeOptions{CachedReporter: rep, Separator: tprom.DefaultSeparator, SanitizeOptions: &so, OmitCardinalityMetrics: true}, 0, 1)
+		t1 := rt.GoNamed("user1", func() { root.Tagged(map[string]string{"k": "1"}).Counter("x").Inc(1) })
+		t2 := rt.GoNamed("user2", func() { root.Tagged(map[string]string{"k": "2"}).Counter("y").Inc(2) })
+		t1.Join()
+		t2.Join()
+		s3 := root.Tagged(map[string]string{"k": "3"})
+		s3.Counter("x").Inc(4)
+		s3.Counter("y").Inc(8)
+		tally.VerifReportOnce(root)
+		if ncb != 0 {
+			x.failf("registration-error-on-legal-concurrent-first-use", "OnRegisterError was called %d time(s) although each name was used for one kind with one tag-key set", ncb)
+			return
+		}
+		m := newC17Model()
+		m.counters[lbl("x", map[string]string{"k": "1"})] = 1
+		m.counters[lbl("x", map[string]string{"k": "3"})] = 4
+		m.counters[lbl("y", map[string]string{"k": "2"})] = 2
+		m.counters[lbl("y", map[string]string{"k": "3"})] = 8
+		if c, d := gatherCheck(reg, m, m.tcount); c != "" {
+			x.failf("concurrent-"+c, "%s", d)
+		}
+	}
+	sc2.Check = func(x *Run, o *rt.Outcome) (string, string, string) { return "", "", "ok" }
+	return []*Scenario{sc, sc2}
 }
 
 // c17PreregJob: vectors declared up front through RegisterCounter / RegisterGauge / RegisterTimer (the helpers that
